@@ -316,6 +316,9 @@ class Reader(object):
                         raise RefReject('bad-unicode-escape', self.i)
                     out.append(chr(int(hx, 16)))
                     self.i += 6
+                elif e == 'U':
+                    # hszinc documents \U as an accepted variant of \u: arguable, own reason code
+                    raise RefReject('upper-U-escape', self.i, repr(e))
                 else:
                     raise RefReject('illegal-string-escape', self.i, repr(e))
                 continue
@@ -348,6 +351,9 @@ class Reader(object):
                         out.append('\\')     # hszinc documents that it keeps the backslash here
                     out.append(e)
                     self.i += 2
+                elif e != '' and e in 'bfnrtU':
+                    # hszinc reads (and writes) the string-style escapes inside URIs too: arguable, own reason code
+                    raise RefReject('uri-escape-string-style', self.i, repr(e))
                 else:
                     raise RefReject('illegal-uri-escape', self.i, repr(e))
                 continue
